@@ -164,8 +164,11 @@ func (c *Core) handler() {
 				crb := cs.Message.(cla.ConvergenceReceivedBundle)
 
 				bp := NewBundleDescriptorFromBundle(*crb.Bundle, c.store)
-				bp.Receiver = crb.Endpoint
-				_ = bp.Sync()
+				if len(bp.Constraints) == 0 {
+					// Only a new bundle's record is written; a duplicate must not alter the known bundle's one.
+					bp.Receiver = crb.Endpoint
+					_ = bp.Sync()
+				}
 
 				c.receive(bp)
 
